@@ -1,4 +1,4 @@
-CONSTANTS BODY = "B"  TMIN = 0  TMAX = 31  CMIN = -16  CMAX = 15  BLO = 0  BHI = 31
+CONSTANTS BODY = "B"  TNEG = 0  TMAX = 31  CNEG = 16  CMAX = 15  BNEG = 0  BHI = 31
           MAXELEMS = 8  MAXPEERS = 6  REVERSED = FALSE  NEARMAX = TRUE  WRAPPED = TRUE
 SPECIFICATION Spec
 INVARIANTS C15_Range
